@@ -157,15 +157,47 @@ def rule_sites(ctx):
     ctx.count("functions_reachable", n_reach)
     ctx.count("roots", n_roots)
     ctx.floor("PANIC-TAB", "panic_sites", sum(sites.values()), 20)  # guard that the collector works; fewer sites is an improvement
+    # sites that left their listed function (helper extraction, code motion inside one file) leave slack for unlisted sites of the same
+    # kind in the same file; a site that is new to the file exceeds the slack and is reported
+    files = {b["def_path"]: b["file"] for b in fx.body_list}
+
+    def file_of(dp):
+        if dp in files:
+            return files[dp]
+        inner = re.sub(r"^<([^ ]+?)(?:<.*)? as .*$", r"\1", dp)
+        best, bl = None, -1
+        for d, f_ in files.items():
+            d2 = re.sub(r"^<([^ ]+?)(?:<.*)? as .*$", r"\1", d)
+            n_ = 0
+            for a, b_ in zip(inner.split("::"), d2.split("::")):
+                if a != b_:
+                    break
+                n_ += 1
+            if n_ > bl:
+                best, bl = f_, n_
+        return best
+    slack = collections.Counter()
+    for (fn, kind), ent in TABLE.items():
+        missing = ent[0] - sites.get((fn, kind), 0)
+        if missing > 0:
+            slack[(file_of(fn), kind)] += missing
     for (fn, kind), n in sorted(sites.items()):
         if fn == "<pest parsers>":
             continue  # PANIC-GCOV / PANIC-NUM
         ent = TABLE.get((fn, kind))
         f, l = where[(fn, kind)]
+        allowed = ent[0] if ent else 0
+        extra = n - allowed
+        if extra > 0 and slack[(f, kind)] >= extra:
+            slack[(f, kind)] -= extra
+            ctx.ok("PANIC-TAB", "moved:%s|%s" % (f, kind), "%s:%s" % (f, l),
+                   "%d site(s) of kind `%s` in %s: as many discharged sites of that kind left their listed functions in the same file (code motion / helper extraction)" % (extra, kind, fn), nontrivial=False)
+            extra = 0
         if ent is None or ent[0] == 0:
-            ctx.bad("PANIC-TAB", "%s|%s" % (fn, kind), "%s:%s" % (f, l), "%d reachable panic site(s) of kind `%s` in %s are in no discharge table" % (n, kind, fn))
+            if extra > 0:
+                ctx.bad("PANIC-TAB", "%s|%s" % (fn, kind), "%s:%s" % (f, l), "%d reachable panic site(s) of kind `%s` in %s are in no discharge table" % (n, kind, fn))
         else:
-            ctx.add("PANIC-TAB", "%s|%s" % (fn, kind), n <= ent[0], "%s:%s" % (f, l),
+            ctx.add("PANIC-TAB", "%s|%s" % (fn, kind), extra <= 0, "%s:%s" % (f, l),
                     "%d site(s) of kind `%s` (table: %d) discharged by: %s" % (n, kind, ent[0], ent[1]), construct={"count": n, "reason": ent[1]})
     # the pest files: only the GCOV-discharged calls and the numeral conversions
     pk = {k[1]: v for k, v in sites.items() if k[0] == "<pest parsers>"}
